@@ -13,6 +13,8 @@ for n in "${names[@]}"; do
   id=${n%%-*}
   log=$(TRY_OUT=/tmp/try-out-matrix ./checks/try_patch.sh "$d/patch.diff" "$id" quick 2>&1)
   nv=$(echo "$log" | grep -c '^VIOLATION')
+  rc=$(echo "$log" | sed -n 's/^exit=//p' | tail -1)
+  if [ "$rc" != "0" ] && [ "$rc" != "1" ]; then echo "| $n | ERROR (check exited $rc, not a verdict) | 0 | |" | tee -a "$tmp"; continue; fi
   first=$(echo "$log" | grep '^VIOLATION' | head -1 | sed -e 's/.*obligation=//' | cut -c1-110)
   by="$id"
   if [ "$nv" -eq 0 ]; then
